@@ -197,6 +197,20 @@ def outALD (D A : Nat → Nat → α) (N : Nat) (nN : α) (corrected : Bool) (i 
 def inALD (D A : Nat → Nat → α) (N : Nat) (nN : α) (corrected : Bool) (i : Nat) : Option α :=
   genALD D (fun a b => A b a) (fun i => sumTo N (fun j => A j i)) N nN corrected i
 
+/-- `Network.undirected_adjacency`: `sp_A.maximum(sp_A.T)` -/
+def undirAdj (A : Nat → Nat → α) (i j : Nat) : α := if A i j < A j i then A j i else A i j
+
+/-- `max_link_distance` of a network with adjacency `A`: `A = undirected_adjacency()` -/
+def maxLinkDistNet (D A : Nat → Nat → α) (N i : Nat) : Option α := maxLinkDist D (undirAdj A) N i
+
+/-- `average_link_distance`: `A = undirected_adjacency()`, `degree = degree()` which is
+`indegree() + outdegree()` for a directed network and `outdegree()` otherwise -/
+def avgALD (directed : Bool) (D A : Nat → Nat → α) (N : Nat) (nN : α) (corrected : Bool) (i : Nat) :
+    Option α :=
+  genALD D (undirAdj A)
+    (fun i => if directed then sumTo N (fun j => A j i) + sumTo N (fun j => A i j)
+              else sumTo N (fun j => A i j)) N nN corrected i
+
 end Geo
 
 /-! ### rectangular grids: `np.meshgrid(*axes)` (default `indexing='xy'`) and `flatten('F')` -/
